@@ -33,10 +33,10 @@ def gen_layout(rng, tier):
     al = rng.choice([0, 0, 0, 1, 2]) if aw >= 3 else 0
     nregs = rng.choice([0, 1, 2, 3, 4, 5, 6, 8])
     maxw = 4
-    large = rng.random() < 0.15
+    large = rng.random() < 0.2
     if large:
         # geometries beyond the small obvious ones: wide buses, many registers, registers of many chunks
-        aw = rng.choice([7, 8, 9, 10, 12])
+        aw = rng.choice([7, 8, 9, 10, 12, 14, 16])
         dw = rng.choice([8, 16, 32, 64, 13])
         nregs = rng.choice([8, 12, 16, 24])
         maxw = rng.choice([4, 8, 9, 16, 17])
@@ -47,11 +47,13 @@ def gen_layout(rng, tier):
         width = max(0, width)
         acc = rng.choice(["r", "w", "rw", "rw"])
         place = rng.choice(["implicit", "implicit", "natural", "unaligned", "padded"])
+        if large and rng.random() < 0.6:
+            place = "unaligned"          # scattered over the whole (large) address space
         regs.append({"width": width, "access": acc, "place": place,
                      "addr_r": rng.random(), "extra": rng.choice([0, 0, 1, 2]),
                      "alignment": rng.choice([None, None, 0, 1, 2])})
     return {"aw": aw, "dw": dw, "al": al, "regs": regs,
-            "overlaps": rng.choice([None, None, 0, 1, 2, 3]),
+            "overlaps": rng.choice([None, None, 0, 1, 2, 3]) if not large else rng.choice([None, 0, 0, 1, 2]),
             "mode": rng.choice(["conf", "conf", "conf", "mixed", "raw"]),
             "cycles": (260 if tier == "quick" else 700) * (2 if large else 1) * (8 if rng.random() < 0.04 else 1)}
 
